@@ -293,22 +293,27 @@ func TestRaftLog(t *testing.T) {
 				refused := peers[leader].RefusedCount()
 				peers[leader].SetRefuse(0)
 				script = append(script, fmt.Sprintf("refused(unpin=%v)@%d(%s) leader=%d refusals=%d", unpin, follower, cn(p.Cid), leader, refused))
-				if refused == 0 {
-					// leadership moved in between: the call was not a redirect
-					if err == nil {
-						if _, had := m.cur[p.Cid.String()]; had {
-							rewrote = true
-						}
-						m.apply(op{unpin: unpin, pin: p, at: follower})
-						for j := range peers {
-							opsSince[j]++
-						}
-					} else {
-						leg.Inconclusive(fmt.Sprintf("operation returned an error: %v", err))
-						t.Skip("unacknowledged operation")
-					}
-				} else if err == nil {
+				attempts := peers[follower].Cfg.CommitRetries + 1
+				switch {
+				case err == nil && refused >= attempts:
+					// every attempt was a redirect and every redirect was refused
 					fail("peer %d acknowledged an operation although all %d redirects to the leader (peer %d) were refused: it was never committed", follower, refused, leader)
+				case err == nil:
+					// leadership moved during the retries (the submitting peer became
+					// leader and committed it itself, or a later redirect reached a
+					// new leader): a normal acknowledgement
+					if _, had := m.cur[p.Cid.String()]; had {
+						rewrote = true
+					}
+					m.apply(op{unpin: unpin, pin: p, at: follower})
+					for j := range peers {
+						opsSince[j]++
+					}
+				case refused < attempts:
+					// an attempt that was not refused failed: it may or may not have
+					// been committed
+					leg.Inconclusive(fmt.Sprintf("operation returned an error: %v", err))
+					t.Skip("unacknowledged operation")
 				}
 				classes["refused-redirect"] = true
 				prefixSafety("after a refused redirect")
